@@ -55,7 +55,9 @@ def pv(v):
     return v["v"]
 
 
-def realize(a, ids):
+def realize(a, ids, style="constructor"):
+    """style = "constructor": resolvers are passed to Field(...);  "registered": the schema is built without resolvers and they are
+    attached afterwards through register_resolver / register_subscription (which also fills the schema's resolver registry)."""
     from py_gql.schema import (ID, Argument, Boolean, Directive, EnumType, EnumValue, Field, Float, InputField, InputObjectType, Int,
                                InterfaceType, ListType, NonNullType, ObjectType, Schema, String, UnionType)
     builtin = {"Int": Int, "Float": Float, "String": String, "Boolean": Boolean, "ID": ID}
@@ -72,9 +74,10 @@ def realize(a, ids):
                     **({"default_value": pv(x["def"])} if x["hasDef"] else {})) for x in lst]
 
     def fields(t):
+        reg_style = style == "registered" and t["k"] == "object"
         return lambda: [Field(spell(f["w"], camel), ref(f["type"]), args(f["args"]), description=f["desc"] or None,
-                              deprecation_reason=f["dep"] or None, resolver=ids.get(f["res"], "resolver"),
-                              subscription_resolver=ids.get("sub_" + f["res"], "resolver") if f["res"] == "r_sub" else None,
+                              deprecation_reason=f["dep"] or None, resolver=None if reg_style else ids.get(f["res"], "resolver"),
+                              subscription_resolver=ids.get("sub_" + f["res"], "resolver") if (f["res"] == "r_sub" and not reg_style) else None,
                               python_name=f["py"] or None) for f in t["fields"]]
     for t in a["types"]:
         k, n = t["k"], t["name"]
@@ -93,7 +96,17 @@ def realize(a, ids):
 
     def g(n):
         return reg.get(n) if n else None
-    return Schema(g(a["query"]), g(a["mutation"]), g(a["subscription"]), directives=dirs, types=list(reg.values()))
+    schema = Schema(g(a["query"]), g(a["mutation"]), g(a["subscription"]), directives=dirs, types=list(reg.values()))
+    if style == "registered":
+        for t in a["types"]:
+            if t["k"] != "object":
+                continue
+            for f in t["fields"]:
+                if f["res"]:
+                    schema.register_resolver(t["name"], spell(f["w"], camel), ids.get(f["res"], "resolver"))
+                    if f["res"] == "r_sub":
+                        schema.register_subscription(t["name"], spell(f["w"], camel), ids.get("sub_" + f["res"], "resolver"))
+    return schema
 
 
 def tref(t):
